@@ -127,6 +127,9 @@ def make_pair(run, tmp, tag, rng, nb=2, band_masks=False):
         for b in range(nb):
             r0, c0 = rng.randrange(src.h - 4), rng.randrange(src.w - 4)
             s[b, r0:r0 + 4, c0:c0 + 5] = -9999.0
+            # plus scattered single pixels, so that the bands' masks differ inside every block window
+            for _ in range(max(8, src.h * src.w // 25)):
+                s[b, rng.randrange(src.h), rng.randrange(src.w)] = -9999.0
         return fusion.write_pair(tmp, tag, src, ref, s, r, sv, None, src_nodata=-9999.0), src, ref
     return fusion.write_pair(tmp, tag, src, ref, s, r, sv, None), src, ref
 
